@@ -341,6 +341,16 @@ def expected_result(op, v):
     return (v, v)
 
 
+def near_square(rng):
+    """k*k + d for a small d: the inputs on which an integer square root that goes through floating point (or that rounds
+    its last correction step the wrong way) is off by one; k sizes concentrate where a double runs out of mantissa."""
+    bits = rng.choice([26, 27, 27, 28, 31, 32, 33, 52, 53, 54, 63, 64, 65, rng.randint(1, 70), rng.randint(1, 70), rng.randint(71, 1200)])
+    k = rng.getrandbits(bits) | (1 << (bits - 1))
+    if rng.random() < 0.2:
+        k = (1 << bits) - rng.choice([1, 1, 2, 3])
+    return max(0, k * k + rng.choice([-1, -1, -1, 0, 1, -2, 2, 2 * k, 2 * k - 1]))
+
+
 def carry_chain_operand(rng, m):
     """For an odd modulus m of nw >= 2 64-bit words: an operand v whose Montgomery form V = v * 2^(64 nw) mod m has a
     double-width square with all-ones words in the upper half - where the Montgomery reduction carries into the accumulator.
